@@ -214,4 +214,22 @@ ForkDBlk ==
      8 :> B(3, <<415>>, 50, FEE) @@            \* D2'' : valid
      9 :> B(8, <<>>, 50, 0)                    \* D3''
 ForkDBlocks == 1..9
+(* C06 family Retarget (BaseH = 2014, base blocks 150 s apart): the first retarget happens at height 2016.      *)
+(* On branch A the period was fast, so A2016 carries 4 units of work; branch B stamps B2015 two weeks later,     *)
+(* its period was slow and its blocks stay at the minimum difficulty.  A (2 blocks, work 5) must beat            *)
+(* B (4 blocks, work 4): more work wins, not more blocks.                                                         *)
+BW(p, txs, u, e, dt, wk) == [parent |-> p, txs |-> txs, cbouts |-> <<O(u, e, 9, 1)>>, dt |-> dt, work |-> wk]
+RetargetTx ==
+    3201 :> T(<<In(1, 1)>>, <<O(30, 0, 1, 1), O(19, 99900000, 2, 2)>>) @@
+    3203 :> T(<<In(1, 1)>>, <<O(49, 99900000, 3, 1)>>)
+RetargetBlk ==
+     1 :> BW(0, <<3201>>, 50, FEE, 150, 1) @@         \* A2015
+     2 :> BW(1, <<>>, 50, 0, 150, 4) @@               \* A2016 : first block of the new period, difficulty x4
+     3 :> BW(0, <<3203>>, 50, FEE, 1209600, 1) @@     \* B2015 : two weeks after its parent
+     4 :> BW(3, <<>>, 50, 0, 150, 1) @@               \* B2016 : slow period, stays at the minimum difficulty
+     5 :> BW(4, <<>>, 50, 0, 150, 1) @@               \* B2017
+     6 :> BW(5, <<>>, 50, 0, 150, 1) @@               \* B2018
+     7 :> BW(2, <<>>, 50, 0, 150, 4) @@               \* A2017 : inside the period, same difficulty as A2016
+     8 :> BW(2, <<>>, 50, 0, 1300, 1)                 \* A2017' : more than 20 minutes after its parent: minimum difficulty allowed
+RetargetBlocks == 1..8
 =============================================================================
